@@ -145,8 +145,10 @@ class TreeInfo(productmd.common.MetadataBase):
         # serialize before opening the destination, see MetadataBase.dump()
         parser = self._get_parser()
         self.serialize(parser, main_variant=main_variant)
+        io = six.StringIO()
+        self.build_file(parser, io)
         with productmd.common.open_file_obj(f, "w") as f:
-            self.build_file(parser, f)
+            f.write(io.getvalue())
 
 
 class Header(productmd.common.Header):
